@@ -17,4 +17,15 @@ CLAIMED = {
             'static rule check over the type-checked program: every node-funding call site is dominated by a checked lock_non_cardinal_outputs call; '
             'no other body can ask the node to add inputs; the lock set derives from inscriptions and runic outputs. Holds for every path of every command, which no test enumerates.',
             'trusted: Bitcoin Core honours locks; rustc callee resolution; decides the locking clause completely, not node behaviour', '§5 C23'),
+    'C12': ('call-graph reachability (no read/write transaction under index_block) + ownership of per-block updater objects + cache-consumption dataflow',
+            'static rule check: the per-block indexing path touches index state only through the batch transaction and keeps no per-block object across blocks — '
+            'a necessary condition of commit-interval independence that holds for every schedule at once; equality of dumps is not decided',
+            'trusted: redb transaction isolation; reviewed exception detect_reorg->block_hash; value equality of dumps not decided', '§5 C12'),
+    'C13': ('MIR dominance / must-pass-through over the commit protocol + who-may-call on begin_write + error-discipline on commit/savepoint results',
+            'static rule check of the commit protocol shape: one write transaction per batch, header written last and checked in the same transaction as the block data, '
+            'durability Immediate on every reachable construction path, savepoint delete/create separated by commits, rollback = restore-then-commit; covers every crash point because it constrains every path',
+            'trusted: redb atomic commit/savepoint semantics; decides protocol shape, not redb crash behaviour', '§5 C13'),
+    'C14': ('MIR dominance (detect before write), edge-reachability (mismatch edge never reaches Ok), enum-arm exhaustiveness over constructed reorg::Error variants',
+            'static rule check: detection dominates all index writes of a block, a hash mismatch cannot return Ok, both error kinds have explicit handlers, the unrecoverable flag is stored before returning and surfaced in status, the loop retries after rollback',
+            'trusted: savepoint spacing covers the recoverable depth (numeric, not decided); redb restore', '§5 C14'),
 }
